@@ -2,10 +2,11 @@
 
 PROOF_TECH = ('contract-based deductive verification: verification conditions generated from the real Python AST of /repo '
               'against sidecar contracts (WF invariant, ghost denotation families), discharged by z3 (cvc5 / z3-CLI fall-backs)')
-BOUNDED_TECH = 'run-time contracts on the real code over a stated bound (bounded stand-in, never counted as proved)'
+BOUNDED_TECH = ('run-time contracts on the real code over a stated bound, and the same sidecar contracts evaluated by z3 on real executions '
+                '(cross-check, vlib/vc/concrete.py) - bounded stand-ins, never counted as proved')
 COMMON_TB = ['Python semantics assumed by the encoding (DESIGN.md section 3; listed in evidence trusted_base)',
              'meaning of the ghost maps (sem = evaluation, canonicity, quantifier closure, essential variables, reachability): '
-             'Lean lemmas lean/BddTheory.lean (L-UNIQ, L-CANON, L-QUANT, L-ESS, L-REACH); correspondence Lean <-> SMT definitions by inspection']
+             'Lean lemmas lean/BddTheory.lean, lean/BddImage.lean (L-UNIQ, L-CANON, L-QUANT, L-ESS, L-REACH, L-IMG); correspondence Lean <-> SMT definitions by inspection']
 
 
 def P(level, expl, proof=True, bounded=(), tb=(), technique=None, design_ref=''):
@@ -20,15 +21,17 @@ PROPS = {
              'proved against contracts whose postcondition is the truth function named in the property, for an arbitrary assignment, '
              'an arbitrary WF manager state (= any history of WF-preserving operations) and an arbitrary variable order; obligations are '
              'regenerated from the current source on every run. Proved under "no reordering fires inside the call" (nested or requests '
-             'off); behaviour when dynamic reordering fires is C09 (control proved, denotation bounded). Function operators and the '
-             'history quantifier over swap/undeclare/loaders are covered by the bounded stand-in (all 256^2 pairs x every connective class).',
+             'off); behaviour when dynamic reordering fires is C09 (control proved, denotation bounded). The dd.autoref operators '
+             '~ & | implies equiv == != <= < and BDD.apply/ite are proved against the same connectives (with the handle ledger), '
+             'assert_operator_arity for all 27 symbols. The history quantifier over swap/undeclare/loaders is covered by the bounded '
+             'stand-in (all 256^2 pairs x every connective class).',
              bounded=['vlib.rtc.c01'],
              tb=['WF preservation by swap, undeclare_vars and the loaders is assumed (bounded-checked by C02/C07/C12/C14)',
-                 'dd.autoref Function operators: bounded only'], design_ref='DESIGN.md 7/C01'),
+                 'reordering fired inside a top-level call: WF and result validity assumed (reorder() contract)'], design_ref='DESIGN.md 7/C01'),
     'C02': P('other',
              'Second sentence of the property (reduced, ordered, regular high edges, unique table) is the invariant WF; its preservation is '
              'proved for find_or_add, _ite, add_var/_init_terminal/declare, incref/decref, var and collect_garbage (every clause W1-W9 '
-             're-established on every path). "Equal references iff equal functions" is WF + lemma L-CANON (Lean). swap, undeclare_vars, collect_garbage and the '
+             're-established on every path). "Equal references iff equal functions" is WF + lemma L-CANON (Lean). swap, undeclare_vars and the '
              'loaders rewrite tables wholesale and are decided by the bounded stand-in (five construction routes must agree for every function '
              'of <= 3 variables under every order; wf() after every step of histories). Category "other": mixed proof + bounded.',
              bounded=['vlib.rtc.c02'], tb=['swap, undeclare_vars, pickle/JSON loaders: bounded only'],
